@@ -294,6 +294,113 @@ def gen_case(ctx, k, encs, fmtname=None, big=False):
                 evs=evs, sents=sents)
 
 
+# ---------------------------------------------------------------- tile sequences (TRLE / ZRLE)
+# Every ordered pair / triple of tile kinds in one tile row: a tile that establishes a palette of n entries (packed
+# palette or palette RLE, n at every index-width boundary), optionally a raw or a solid tile in between, then a tile
+# that may reuse that palette (TRLE 127 / 129) or bring its own.  The reference encoder is steered by forcing the
+# answers of the choice oracle at the indices it consults for each tile (base = 1000 * tile index: +0 sub-encoding,
+# +1 run cap, +2 reuse yes/no, +3 palette padding); any function is a legitimate oracle.
+TS_PREV = [("packed", n) for n in (2, 3, 4, 5, 8, 15, 16)] + [("prle", n) for n in (2, 3, 4, 5, 8, 16, 17, 64, 127)]
+TS_MID = [None, "raw", "solid"]
+TS_LAST = ["reuse127", "reuse129", "packed", "prle", "plain", "raw"]
+TS_COMBOS = [(e, p, m, l) for e in ("trle", "zrle") for p in TS_PREV for m in TS_MID for l in TS_LAST]
+
+
+def gen_tileseq(ctx, k, idx):
+    rng = ctx.rng
+    enc, (pkind, n), mid, last = TS_COMBOS[idx % len(TS_COMBOS)]
+    fmtname = rng.choice(list(FORMATS))
+    fmt = FORMATS[fmtname]
+    bpp = fmt[0]
+    ts_ = 16 if enc == "trle" else 64
+    ntiles = 2 + (1 if mid else 0) + (1 if rng.random() < 0.3 else 0)        # sometimes one more tile after the sequence
+    # enough pixels in a tile for n distinct colours
+    th = rng.choice([8, 9, 16]) if enc == "trle" else rng.choice([2, 3, 5])
+    if n > ts_ * th:
+        th = 16 if enc == "trle" else 5
+    lastw = rng.choice([ts_, ts_, 1, 7])                                      # a narrow last tile too
+    widths = [ts_] * (ntiles - 1) + [lastw]
+    W, H = sum(widths), th
+    sibpp, sigmax = rng.choice([(32, 255)] * 4 + [(16, 63)] * 2 + [(16, 31), (8, 7)])
+    L = ["case %d %s %dx%d tileseq" % (k, fmtname, W, H)]
+    L.append("init %d %d %s %d %d %s" % (W, H, " ".join(map(str, fmt)), sibpp, sigmax, ALL_ENCS))
+    cv = Canvas(W, H, bpp)
+    seed = rng.randrange(1 << 30)
+    L.append("fill %d" % seed)
+    cv.fill(seed)
+    mask = ((fmt[3] << fmt[6]) | (fmt[4] << fmt[7]) | (fmt[5] << fmt[8])) & ((1 << bpp) - 1)
+    pad = rng.choice([0, 0, 1, 2]) if n > 2 else 0
+    ncol = n - pad                                                            # distinct colours of the first tile, padded to n
+    if ncol > min(1 << bpp, ts_ * th):
+        ncol, pad = min(1 << bpp, ts_ * th, n), 0
+    palette = rng.sample(range(1 << bpp), ncol) if bpp <= 16 else [rng.getrandbits(bpp) for _ in range(ncol)]
+    palette = list(dict.fromkeys(palette))
+    ov = {}
+
+    def tile_pixels(w, cols, runs):
+        out = []
+        npx = w * th
+        must = list(cols)
+        rng.shuffle(must)
+        while len(out) < npx:
+            c = must.pop() if must else rng.choice(cols)
+            out += [c] * (rng.choice([1, 2, 3, 16, 17, 40]) if runs else 1)
+        return out[:npx]
+
+    tiles = []
+    # tile 0: establishes the palette
+    tiles.append(tile_pixels(widths[0], palette, pkind == "prle"))
+    ov[0] = 2 if pkind == "packed" else 4
+    ov[2] = 1
+    ov[3] = pad
+    j = 1
+    if mid:
+        if mid == "raw":
+            tiles.append([rng.getrandbits(bpp) for _ in range(widths[j] * th)])
+            ov[1000 * j] = 0
+        else:
+            tiles.append([rng.getrandbits(bpp)] * (widths[j] * th))
+            ov[1000 * j] = 1
+        j += 1
+    sub = rng.sample(palette, min(len(palette), rng.choice([1, 2, 2, 3, len(palette)])))
+    base = 1000 * j
+    if last in ("reuse127", "reuse129"):
+        tiles.append(tile_pixels(widths[j], sub, last == "reuse129"))
+        ov[base] = 2 if last == "reuse127" else 4
+        ov[base + 2] = 0                                                      # reuse if the encoder may
+        ov[base + 3] = rng.choice([0, 1])
+    elif last in ("packed", "prle"):
+        cols = sub if rng.random() < 0.5 else [rng.getrandbits(bpp) for _ in range(rng.choice([2, 3, 4, 5, 16]))]
+        tiles.append(tile_pixels(widths[j], cols, last == "prle"))
+        ov[base] = 2 if last == "packed" else 4
+        ov[base + 2] = 1                                                      # no reuse: a palette of its own
+        ov[base + 3] = rng.choice([0, 1, 3])
+    elif last == "plain":
+        tiles.append(tile_pixels(widths[j], sub, True))
+        ov[base] = 3
+    else:
+        tiles.append([rng.getrandbits(bpp) for _ in range(widths[j] * th)])
+        ov[base] = 0
+    j += 1
+    while j < ntiles:                                                          # whatever the hash oracle decides
+        tiles.append(tile_pixels(widths[j], sub, rng.random() < 0.5))
+        j += 1
+    pix = []
+    for row in range(th):
+        for ti, tp in enumerate(tiles):
+            pix += tp[row * widths[ti]:(row + 1) * widths[ti]]
+    d = bpp // 4
+    spec = "%d/%s" % (rng.randrange(1 << 30), ",".join("%d=%d" % kv for kv in sorted(ov.items())))
+    L.append("fbu 1")
+    L.append("rect %s 0 0 %d %d %s %s" % (enc, W, H, spec, "".join("%0*x" % (d, v) for v in pix)))
+    cv.paint(0, 0, W, H, pix)
+    L.append("seg " + " ".join(map(str, gen_seg(rng))))
+    L.append("run")
+    feat = "tileseq/%s/%s%d/%s/%s" % (enc, pkind, n, mid or "-", last)
+    return dict(lines=L, expect=[cv.hexdump(mask)], feats=[feat], fmt=fmtname, bpp=bpp, W=W, H=H, sigmax=sigmax,
+                evs=["U0,0,%d,%d F" % (W, H)], sents=["0301" + be16(0) + be16(0) + be16(W) + be16(H)])
+
+
 def load_corpus(k0):
     cases = []
     cdir = os.path.join(vlib.VERIF, "corpus", PID)
@@ -591,6 +698,10 @@ def check(ctx):
     encs = MODEL_ENCS
     for i in range(n):
         cases.append(gen_case(ctx, len(cases), encs, big=(i % 10 == 0)))
+    # every (palette tile, in-between tile, following tile) combination once per run (quick), 8 times (thorough)
+    off = rng.randrange(len(TS_COMBOS))
+    for i in range(len(TS_COMBOS) * (1 if ctx.quick() else 8)):
+        cases.append(gen_tileseq(ctx, len(cases), off + i))
     encode(mexe, cases)
     global FIXMASK
     fixmask = probe_fixes(cexe, mexe)
